@@ -421,3 +421,9 @@ def sd_split_many(lines_bytes, mode="exec"):
         t = r.split("\t")
         out.append([unhx(x).decode("utf-8", "replace") for x in t[1:]] if t[0] == "OK" else None)
     return out
+
+
+def failure_classes(ctx):
+    import collections
+    c = collections.Counter(f.get("class") for f in ctx.failures)
+    return dict(c)
